@@ -11,6 +11,9 @@
 #include <algorithm>
 #include <math.h>
 #include <sched.h>
+#include <signal.h>
+#include <ftw.h>
+#include <sys/resource.h>
 #include <atomic>
 #include <thread>
 #include <asl/File.h>
@@ -1114,6 +1117,120 @@ static void mode_copy(vf::Ctx& c)
 	if (c.want_sample() && c.idx % 41 == 2) c.sample(c.curdesc() + "; destination read with open/read equals the source bytes");
 }
 
+// ------------------------------------------------------------------ mode fault: write faults during copy/move, and moves across file systems
+// A write fault is injected with RLIMIT_FSIZE (SIGXFSZ ignored): every write that would make a file of this process longer than the
+// limit fails (EFBIG), exactly as it would on a full disk. Moves across file systems go from the scratch directory to /dev/shm when
+// that is another device (the EXDEV branch of Directory::move: copy, then remove the source).
+// Judged, from "Directory copy and move preserve content byte for byte":
+//   * a copy or move that reports success left a destination equal to the source bytes;
+//   * a copy never changes its source; after a move, failed or not, the complete content still exists (in the source or the destination);
+//   * without a fault (limit >= size) the call succeeds and the destination is complete.
+struct FsizeLimit
+{
+	struct rlimit old;
+	void (*oldh)(int);
+	bool on;
+	FsizeLimit(size_t lim) : on(false)
+	{
+		oldh = signal(SIGXFSZ, SIG_IGN);
+		if (getrlimit(RLIMIT_FSIZE, &old) != 0) return;
+		struct rlimit r = old;
+		r.rlim_cur = (rlim_t)lim;
+		on = setrlimit(RLIMIT_FSIZE, &r) == 0;
+	}
+	void off() { if (on) { setrlimit(RLIMIT_FSIZE, &old); on = false; } signal(SIGXFSZ, oldh); }
+	~FsizeLimit() { off(); }
+};
+
+static std::string g_shm;   // a directory on another file system than g_dir, or empty
+
+static void mode_fault(vf::Ctx& c)
+{
+	Scratch sc(c);
+	size_t n = copy_size(c, (size_t)c.opt->param("maxsize", 200000));
+	if (n == 0 && c.rng.chance(0.8)) n = 1 + c.rng.below(70000);
+	count_size(c, n);
+	Bytes data = binary_content(c, n);
+	std::string src = sc.file("src.bin");
+	if (!posix_write(src, data)) { c.inconclusive("scratch-write-failed"); return; }
+	int v = c.rng.below(6);                       // as in mode copy: 0-2 copies, 3-5 moves
+	bool move = v >= 3, intodir = v == 1 || v == 4;
+	bool xdev = !g_shm.empty() && (move ? c.rng.chance(0.85) : c.rng.chance(0.3));
+	if (move && !xdev) c.count("fault.move-on-one-file-system(rename, nothing is written)");
+	std::string base = src.substr(src.rfind('/') + 1);
+	std::string root = xdev ? g_shm + "/" + base + "_" : sc.base;
+	std::string dir = root + "d", dst;
+	mkdir(dir.c_str(), 0777);
+	sc.dirs.push_back(dir);
+	if (intodir) dst = dir + "/" + base; else dst = root + "dst.bin";
+	sc.also(dst);
+	unlink(dst.c_str());
+	// where the first failing write happens
+	size_t lim;
+	int lk = c.rng.below(8);
+	const char* lname;
+	if (lk == 0) { lim = n + c.rng.below(3) * 1000; lname = "no-fault"; }
+	else if (lk == 1) { lim = n ? n - 1 : 0; lname = "last-byte"; }
+	else if (lk == 2) { lim = n > 4096 ? n - 1 - c.rng.below(4095) : c.rng.below((uint32_t)n + 1); lname = "inside-the-last-stdio-buffer"; }
+	else if (lk == 3) { lim = 65536 * (size_t)c.rng.below((uint32_t)(n / 65536) + 1); lname = "at-a-block-boundary"; }
+	else if (lk == 4) { size_t k = 65536 * (size_t)c.rng.below((uint32_t)(n / 65536) + 1) + c.rng.below(4096); lim = k < n ? k : (n ? n - 1 : 0); lname = "just-after-a-block-boundary"; }
+	else if (lk == 5) { lim = 0; lname = "first-byte"; }
+	else { lim = c.rng.below((uint32_t)n + 1); lname = "anywhere"; }
+	bool fault = lim < n;
+	static const char* VN[] = {"Directory::copy(file, newname)", "Directory::copy(file, directory)", "File(file).copy(newname)",
+	                           "Directory::move(file, newname)", "Directory::move(file, directory)", "File(file).move(newname)"};
+	c.desc(vf::fmt("%s of %zu bytes%s, writes fail beyond byte %zu (%s)", VN[v], n, xdev ? " to another file system" : "", lim, fault ? lname : "no fault"));
+	c.count((std::string("fault.op.") + VN[v] + (xdev ? " across file systems" : "")).c_str());
+	c.count((std::string("fault.where.") + (fault ? lname : "no-fault")).c_str());
+	bool ok;
+	String to = S(intodir ? dir : dst);
+	{
+		FsizeLimit fl(lim);
+		if (!fl.on) { c.inconclusive("setrlimit-failed"); return; }
+		switch (v) {
+		case 0: case 1: ok = Directory::copy(S(src), to); break;
+		case 2: ok = File(S(src)).copy(to); break;
+		case 3: case 4: ok = Directory::move(S(src), to); break;
+		default: ok = File(S(src)).move(to);
+		}
+	}
+	Bytes got, s2;
+	bool have_dst = posix_read(dst, got), have_src = posix_read(src, s2);
+	bool wrote = !move || xdev;                   // a rename writes nothing, so the limit cannot bite
+	if (fault && wrote) c.count(ok ? "fault.call-reported-success-under-a-fault" : "fault.call-reported-failure-under-a-fault");
+	if (ok) {
+		if (!have_dst) c.fail(move ? "fault.move.reported-success.destination-missing" : "fault.copy.reported-success.destination-missing", "the call returned true but " + dst + " does not exist");
+		same(c, move ? "fault.move.reported-success.content" : "fault.copy.reported-success.content", got, data);
+	}
+	if (!move) {
+		if (!have_src || s2 != data) c.fail("fault.copy.source-changed", "the source differs after the copy");
+	} else {
+		bool complete = (have_src && s2 == data) || (have_dst && got == data);
+		if (!complete) c.fail("fault.move.content-lost", vf::fmt("after the move (returned %s) neither the source (%s, %zu bytes) nor the destination (%s, %zu bytes) holds the %zu bytes",
+		                                                         ok ? "true" : "false", have_src ? "exists" : "gone", s2.size(), have_dst ? "exists" : "missing", got.size(), n));
+		c.count(have_src ? "observed.move-left-the-source" : "observed.move-removed-the-source");
+	}
+	if (!fault || !wrote) {
+		if (!ok) c.fail(move ? "move.returned-false" : "copy.returned-false", "the call returned false although no write failed");
+		if (!have_dst) c.fail(move ? "move.destination-missing" : "copy.destination-missing", "destination " + dst + " does not exist");
+		same(c, move ? "move.content" : "copy.content", got, data);
+	}
+	if (xdev) c.count(move ? "fault.moves-across-file-systems" : "fault.copies-across-file-systems");
+	// the limit is gone again: the same call now works
+	if (fault && wrote && !ok && have_src && c.rng.chance(0.5)) {
+		unlink(dst.c_str());
+		bool ok2 = move ? Directory::move(S(src), to) : Directory::copy(S(src), to);
+		Bytes g2;
+		posix_read(dst, g2);
+		if (!ok2) c.fail(move ? "move.returned-false" : "copy.returned-false", "the call repeated without the fault returned false");
+		same(c, move ? "move.content" : "copy.content", g2, data);
+		c.count("fault.repeated-without-fault");
+	}
+	if (have_src) unlink(src.c_str());
+	c.distinct(vf::mix(vf::fnv(data), (uint64_t)v * 64 + (uint64_t)xdev * 32 + (uint64_t)lk));
+	if (c.want_sample() && c.idx % 37 == 3) c.sample(c.curdesc() + vf::fmt("; returned %s, destination %zu bytes, source %s", ok ? "true" : "false", got.size(), have_src ? "kept" : "removed"));
+}
+
 // ------------------------------------------------------------------ mode big: sizes above 200000 (to 16 MiB in the thorough tier)
 static void mode_big(vf::Ctx& c)
 {
@@ -1641,11 +1758,21 @@ int main(int argc, char** argv)
 	R.add("bom", mode_bom, "UTF-8+BOM / UTF-16LE / UTF-16BE files of random scalar sequences, and near-miss prefixes");
 	R.add("copy", mode_copy, "Directory::copy/move and File::copy/move");
 	R.add("big", mode_big, "sizes above 200000 bytes");
+	R.add("fault", mode_fault, "copies and moves with a write that fails at a chosen byte (RLIMIT_FSIZE), and moves to another file system");
 	R.add("sameobj", mode_sameobj, "histories of metadata queries, opens, writes, closes and reads through ONE long-lived File / TextFile object");
 	R.add("copy_mt", mode_copy_mt, "2-6 threads copying/moving their own files at the same time (beyond the stated quantifier)");
 	R.setup = [](const vf::Options& o) {
 		g_dir = o.out + "/fs";
 		mkdir(g_dir.c_str(), 0777);
+		// another file system for the EXDEV branch of Directory::move
+		struct stat a, b;
+		std::string shm = "/dev/shm/vf_c17_" + std::to_string((long)getpid());
+		if (mkdir(shm.c_str(), 0777) == 0 || errno == EEXIST) {
+			if (stat(shm.c_str(), &a) == 0 && stat(g_dir.c_str(), &b) == 0 && a.st_dev != b.st_dev) g_shm = shm;
+			else rmdir(shm.c_str());
+		}
 	};
-	return R.main(argc, argv);
+	int rc = R.main(argc, argv);
+	if (!g_shm.empty()) nftw(g_shm.c_str(), [](const char* p, const struct stat*, int, struct FTW*) { return remove(p); }, 16, FTW_DEPTH | FTW_PHYS);
+	return rc;
 }
